@@ -105,6 +105,7 @@ struct CliRun {
     stderr: Vec<u8>,
     code: Option<i32>,
     signal: bool,
+    hung: bool,
 }
 
 /// `kind|frame|frame` of the first AddressSanitizer report on stderr (frames inside the crate).
@@ -161,9 +162,40 @@ fn run_cli(naija: &str, args: &[&str], stdin: Option<&str>, cuts: &[usize]) -> s
             let _ = pipe.write_all(&text[at..]);
         });
     }
-    let out = child.wait_with_output()?;
-    Ok(CliRun { stdout: out.stdout, stderr: out.stderr, code: out.status.code(), signal: out.status.code().is_none() })
+    // both output streams are drained by threads; a run that does not end within the watchdog
+    // is killed and reported as a hang (a generated program takes milliseconds)
+    use std::io::Read;
+    let mut so = child.stdout.take().unwrap();
+    let mut se = child.stderr.take().unwrap();
+    let t_out = std::thread::spawn(move || {
+        let mut v = Vec::new();
+        let _ = so.read_to_end(&mut v);
+        v
+    });
+    let t_err = std::thread::spawn(move || {
+        let mut v = Vec::new();
+        let _ = se.read_to_end(&mut v);
+        v
+    });
+    let t0 = std::time::Instant::now();
+    let mut hung = false;
+    let status = loop {
+        if let Some(st) = child.try_wait()? {
+            break st;
+        }
+        if t0.elapsed().as_secs() >= CLI_WATCHDOG_S {
+            hung = true;
+            let _ = child.kill();
+            break child.wait()?;
+        }
+        std::thread::sleep(std::time::Duration::from_millis(2));
+    };
+    let stdout = t_out.join().unwrap_or_default();
+    let stderr = t_err.join().unwrap_or_default();
+    Ok(CliRun { stdout, stderr, code: status.code(), signal: status.code().is_none() && !hung, hung })
 }
+
+const CLI_WATCHDOG_S: u64 = 45;
 
 const BURST_PAUSE_MS: u64 = 120;
 
@@ -204,6 +236,10 @@ const EDGE_TEXTS: &[&str] = &[
     "shout([minus 0, 1152921504606846976, 0.5])",
     "make x get 0 times minus 1\nshout(\"v={x}\")\nshout(to_string(x))\nshout(x add \"\")",
     "make big get 1152921504606846976\nshout(\"v={big}\")\nshout(to_string(big))",
+    // reading input: in stdin mode the script itself has used up the input, in the other modes
+    // standard input is empty here; every call sees the end of input
+    "shout(read_line(\"\").len())\nshout(\"after\")",
+    "make i get 0\njasi (i small pass 3) start\n    make l get read_line(\"\")\n    shout(\"[{l}]\")\n    i get i add 1\nend",
     // child processes: a child that never reads a standard input larger than a pipe buffer, one
     // that exits at once, one that reads everything, output on both streams, a non-zero status
     "make t get \"0123456789abcdef\"\nmake i get 0\njasi (i small pass 14) start\nt get t add t\ni get i add 1\nend\nshout(t.len())\nmake c get command(\"true\")\nc.stdin_text(t)\nmake r get c.run()\nshout(r.success())\nshout(r.exit_code())\nshout(\"done\")",
@@ -282,6 +318,11 @@ fn stage_cli(ctx: &mut Ctx) {
                     continue;
                 }
             };
+            if run.hung {
+                ctx.out.fail(idx, &format!("cli-hang|{mode}"), json!({"watchdog_s": CLI_WATCHDOG_S, "stdout_head": String::from_utf8_lossy(&run.stdout).chars().take(300).collect::<String>()}), replay);
+                all_ok = false;
+                continue;
+            }
             if let Some(sig) = asan_report(&run.stderr) {
                 ctx.out.fail(idx, &format!("cli-asan|{sig}"), json!({"mode": mode, "report_head": String::from_utf8_lossy(&run.stderr).chars().take(1500).collect::<String>()}), replay);
                 all_ok = false;
